@@ -150,6 +150,19 @@ func scenarioOverbetThenMinRaise() handCase {
 	return handCase{c, script}
 }
 
+// boardPlaysTweak: in one hand in seven the board is a royal flush (every player who stays ties), the
+// table has five or more seats and mostly callers with a few folders: many-way split pots built from
+// several levels of dead money
+func boardPlaysTweak(c *Cfg, r *rand.Rand) {
+	if c.Req != 0 || r.Intn(7) != 0 {
+		return
+	}
+	stackBoard(c, []string{"ST", "SJ", "SQ", "SK", "SA"})
+	for i := range c.Personas {
+		c.Personas[i] = []int{personaCaller, personaCaller, personaCaller, personaFolder, personaRandom}[r.Intn(5)]
+	}
+}
+
 func commonScenarios() []handCase {
 	return []handCase{scenarioTieWithFoldedLevels(), scenarioOverbetThenMinRaise(), scenarioHeadsUpShortBB(), scenarioSidePots(), scenarioFoldOut(), scenarioBoardPlays(false), scenarioBoardPlays(true)}
 }
@@ -158,7 +171,7 @@ func commonScenarios() []handCase {
 
 func checkC01(ctx *RunCtx) int {
 	rep := NewReport()
-	runHands(ctx, rep, 1, ctx.N(6000, 400000), GenOpts{Hostile: true}, commonScenarios(), nil, func() Monitor { return &C01Mon{} })
+	runHands(ctx, rep, 1, ctx.N(6000, 400000), GenOpts{Hostile: true}, commonScenarios(), boardPlaysTweak, func() Monitor { return &C01Mon{} })
 	return finish(ctx, rep, &CheckSpec{
 		Prop: "C01", Level: "exploration", EvalCounter: "hands", NonTrivSet: "nontrivial",
 		Rule:        "hands of the real engine from generated configurations (2-10 seats, boundary/tiny/medium/deep bankrolls, ante, blinds incl. dealer-blind-only / big-blind-only / dead small blind, no-/pot-limit, 52/36 cards, 2 or 4 hole cards), pinned random decks, mixed strategies with hostile bet/raise amounts; the chip ledger is asserted on the state after every operation, the pot sum at every publication point, the settlement ledger at close. Non-trivial = distinct (configuration, operation trace) with >= 2 published pots at close or a forced bet capped by the stack",
@@ -283,6 +296,7 @@ func checkC06(ctx *RunCtx) int {
 				c.Personas[i] = personaMinRaiser
 			}
 		}
+		boardPlaysTweak(c, r)
 	}
 	runHands(ctx, rep, 6, ctx.N(6000, 300000), GenOpts{Hostile: true}, commonScenarios(), tweak, func() Monitor { return &C06Mon{} })
 	return finish(ctx, rep, &CheckSpec{
@@ -685,6 +699,7 @@ func checkC02(ctx *RunCtx) int {
 		if c.Req == 0 && r.Intn(5) == 0 {
 			stackBoard(c, []string{"ST", "SJ", "SQ", "SK", "SA"}) // the board plays: n-way ties
 		}
+		boardPlaysTweak(c, r)
 	}
 	runHands(ctx, rep, 2, ctx.N(4000, 150000), GenOpts{ShowdownBias: true}, commonScenarios(), tweak, func() Monitor { return &C02Mon{} })
 	return finish(ctx, rep, &CheckSpec{
